@@ -43,6 +43,9 @@ func TestMain(m *testing.M) {
 		if json.Unmarshal(raw, &c) != nil {
 			return ""
 		}
+		if excludedSW(&c) != "" {
+			return "" // exact shape of an open known finding: reported by its probe, never as a fresh violation
+		}
 		return runSW(c).Violation
 	})
 	registerMoreReplays(reg)
